@@ -21,7 +21,7 @@ from .c01 import FUNCS
 OPS = ['run', 'get_run_func', 'get_jacobian_func', 'get_nodes', 'get_edges', 'get_edge', 'collect_edges',
        'collect_edges_delay', 'get_node_template', 'getitem', 'to_yaml', 'deepcopy', 'update_template',
        'op_update_template', 'op_derive_equations_only', 'update_var_on_copy', 'run_noclear', 'get_run_func_noclear', 'get_jacobian_func_noclear',
-       'derive_then_edit_inherited', 'op_alias', 'derive_then_edit_edge', 'node_derive_then_edit']
+       'derive_then_edit_inherited', 'op_alias', 'derive_then_edit_edge', 'node_derive_then_edit', 'op_override_constant']
 
 
 def first_state(spec):
@@ -114,10 +114,17 @@ def do_op(ct, spec, name, vectorize):
             top = [e for e in spec.edges if e.template is None and e.src.count('/') == 2 and e.tgt.count('/') == 2]
             c2 = ct.update_template(name='derived')
             c3 = ct.update_template(name='derived2', nodes={'zz_extra': copy.deepcopy(ct.nodes[nodes[-1]])}) if depth == 0 else None
+            # (c4: derived WITH a new edge, which takes another branch of update_template; the inherited edges are edited)
+            c4 = ct.update_template(name='derived3', edges=[(top[0].src, top[0].tgt, None, {'weight': 2.25})]) \
+                if depth == 0 and top else None
             for e in top[:2]:
                 c2.update_var(edge_vars=[(e.src, e.tgt, {'weight': 7.75})])
                 if c3 is not None:
                     c3.update_var(edge_vars=[(e.src, e.tgt, {'weight': 8.75})])
+            if c4 is not None:
+                for e in top[1:3]:
+                    if (e.src, e.tgt) != (top[0].src, top[0].tgt):
+                        c4.update_var(edge_vars=[(e.src, e.tgt, {'weight': 6.75})])
         elif name == 'node_derive_then_edit':
             # a NodeTemplate derived without new operators, then edited through its public update_var
             for nn in nodes[:2]:
@@ -125,6 +132,16 @@ def do_op(ct, spec, name, vectorize):
                 v_ = next(v for v, (k, _) in spec.ops[o_].vars.items() if k in ('state', 'const'))
                 nt2 = ct.get_node_template(nn).update_template(name='derived_node')
                 nt2.update_var(o_, v_, 4.25)
+        elif name == 'op_override_constant':
+            # a derived operator that overrides a constant of its parent, in the form the parent declares it in (number or
+            # dictionary): the parent keeps its own definition
+            for nn in nodes[:2]:
+                for optpl in list(ct.get_node_template(nn).operators):
+                    for v_, d_ in list(optpl.variables.items()):
+                        if isinstance(d_, dict) and d_.get('vtype') == 'constant':
+                            optpl.update_template(name=optpl.name + '_ovr', variables={v_: dict(d_, value=9.5)})
+                        elif isinstance(d_, (int, float)):
+                            optpl.update_template(name=optpl.name + '_ovr', variables={v_: 9.5})
         elif name == 'op_alias':
             # a renamed / re-described copy of every operator: neither equations nor variables are edited
             for nn in nodes:
@@ -199,7 +216,7 @@ def job_fn(job):
         return stateful_job(job)
     spec = job['spec']
     out = dict(status='ok')
-    ct = build_python(spec)
+    ct = build_python(spec, dict_form=bool(job.get('dict_form')))
     sibling = None
     if job.get('sibling'):
         # a second template that shares the OperatorTemplate objects (built from the same spec in one go)
@@ -254,6 +271,10 @@ def run(tier='quick', seed=0, only=None, verbose=False):
         for seq in seqs:
             for vec in ((True, False) if len(seq) == 1 else (True,)):
                 jobs.append(dict(key=f"{key}|ops={'+'.join(seq)}|vec={vec}", spec=spec, ops=seq, vectorize=vec))
+    # operators whose constants are declared in dictionary form
+    for key, spec in base[:2] + base[3:4]:
+        for name in ('op_override_constant', 'op_update_template', 'node_derive_then_edit', 'run'):
+            jobs.append(dict(key=f"{key}|dictform|ops={name}|vec=True", spec=spec, ops=(name,), vectorize=True, dict_form=True))
     # templates that hold a kept network state (in-place run with clear=False)
     safe = ['run', 'run_noclear', 'get_run_func', 'get_run_func_noclear', 'get_jacobian_func', 'get_nodes', 'get_edges',
             'collect_edges', 'get_node_template', 'getitem', 'to_yaml', 'deepcopy', 'update_var_on_copy']
